@@ -484,7 +484,7 @@ func findMinted(hdr string, minted []*world.Truth, st world.ServiceSettings, ktm
 	for _, m := range minted {
 		if len(m.TicketCipher) >= 16 && len(m.AuthCipher) >= 16 && bytes.Contains(raw, m.TicketCipher) && bytes.Contains(raw, m.AuthCipher) {
 			mv := world.Accept(m, st, ktm, now, replay)
-			if mv.Accept == "accept" && taint[mv.ReplayKey] && !replay[mv.ReplayKey] {
+			if mv.Accept == "accept" && world.SameClientTime(taint, mv.ReplayKey) && !replay[mv.ReplayKey] {
 				mv.Accept = "either"
 				mv.Reasons = append(mv.Reasons, "either:replay-state-unknown")
 			}
